@@ -292,18 +292,75 @@ def r5_numpy(ctx) -> None:
 
 # ----------------------------------------------------------------------- R6
 def r6_shift(ctx) -> None:
+  """The bounds declared by the shifting wrapper are evaluated on a finite model: for sample (lo, hi, shift) triples and
+  every path of the constructor loop whose branch decisions hold for the sample, the `bounds=` value must be
+  (lo + shift, hi) for shift >= 0 and (lo, hi + shift) otherwise."""
+  from vzstatic import pathcond
   ci = ctx.index.need_class('vizier._src.benchmarks.experimenters.shifting_experimenter.ShiftingExperimenter')
   init = ci.methods['__init__']
-  ok = False
-  for n in ast.walk(init.node):
-    if isinstance(n, ast.If) and unparse(n.test, 0) in ('shift >= 0', 'shift > 0'):
-      pos = unparse(ast.Module(body=n.body, type_ignores=[]), 0)
-      neg = unparse(ast.Module(body=n.orelse, type_ignores=[]), 0)
-      ok = '(bounds[0] + shift, bounds[1])' in pos and '(bounds[0], bounds[1] + shift)' in neg
-  ctx.check(ok, 'R6', 'restricted bounds', init.node,
-            'shift >= 0: (lo + shift, hi); shift < 0: (lo, hi + shift)',
-            'the declared bounds are not shrunk on the side the shift leaves: points of the declared space map outside the '
-            'base space and are silently clipped, so the wrapper no longer evaluates the base objective at the shifted point',
+  g = cfgmod.CFG(init.node)
+  site = None
+  for n in g.nodes:
+    for c in flow.node_calls(n):
+      for k in c.keywords:
+        if k.arg == 'bounds':
+          site = (n, k.value)
+  if site is None:
+    raise AnalysisError('ShiftingExperimenter.__init__: `bounds=` of the rebuilt parameter not found')
+  node, bexpr = site
+  loop = next((l for l in g.nodes if l.kind == 'for' and node in g.reachable([l])), None)
+  if loop is None:
+    raise AnalysisError('ShiftingExperimenter.__init__: parameter loop not found')
+  # the loop variable holding this parameter's shift, and the local holding the base bounds
+  tnames = [x.id for x in ast.walk(loop.ast.target) if isinstance(x, ast.Name)]
+  shift_var = next((t for t in tnames if 'shift' in t), None)
+  if shift_var is None:
+    raise AnalysisError('ShiftingExperimenter.__init__: loop variable carrying the shift not found')
+  starts = [m for m, lab in loop.succs if not (isinstance(lab, tuple))]
+  samples = [(lo, hi, sh) for lo, hi in ((0.0, 10.0), (-5.0, 5.0), (2.0, 3.0)) for sh in (-4.0, -0.5, 0.0, 0.5, 4.0)]
+  checked = 0
+  bad = None
+  for path in pathcond.paths(g, [m for m in starts if node in g.reachable([m], include_starts=True)], node, stop=[loop]):
+    dec = pathcond.conditions(path)
+    val = pathcond.substitute_on_path(path, bexpr)
+    for lo, hi, sh in samples:
+      env = {shift_var: sh}
+      # the base bounds: any `<x>.bounds` expression / a local `bounds`
+      for x in ast.walk(val):
+        if isinstance(x, ast.Attribute) and x.attr == 'bounds':
+          env[unparse(x, 0)] = (lo, hi)
+      for t_, _ in dec:
+        for x in ast.walk(t_):
+          if isinstance(x, ast.Attribute) and x.attr == 'bounds':
+            env[unparse(x, 0)] = (lo, hi)
+      try:
+        feasible = True
+        for t_, pol in dec:
+          try:
+            if bool(pathcond.neval(t_, env)) != pol:
+              feasible = False
+              break
+          except pathcond.NoValue:
+            continue  # a test that does not concern the bounds arithmetic (types, scale ...)
+        if not feasible:
+          continue
+        got = pathcond.neval(val, env)
+      except pathcond.NoValue as e:
+        raise AnalysisError(f'ShiftingExperimenter.__init__: cannot evaluate `{unparse(val, 60)}` ({e})')
+      if abs(sh) >= hi - lo:
+        continue  # refused by the range check (must not reach here): reaching it is also wrong
+      checked += 1
+      want = (lo + sh, hi) if sh >= 0 else (lo, hi + sh)
+      if tuple(got) != want and bad is None:
+        bad = (lo, hi, sh, tuple(got), want)
+  if checked == 0:
+    raise AnalysisError('ShiftingExperimenter.__init__: no sample reached the bounds computation')
+  ctx.check(bad is None, 'R6', 'restricted bounds', init.node,
+            f'shift >= 0: (lo + shift, hi); shift < 0: (lo, hi + shift) on {checked} sample evaluations',
+            ('the declared bounds are not shrunk on the side the shift leaves' +
+             (f' (bounds ({bad[0]}, {bad[1]}), shift {bad[2]}: declared {bad[3]}, expected {bad[4]})' if bad else '') +
+             ': points of the declared space map outside the base space and are silently clipped, so the wrapper no longer '
+             'evaluates the base objective at the shifted point'),
             construct='shift-bounds', func=init.qualname)
 
 
